@@ -134,12 +134,7 @@ func init() {
 			p.Alpha = []*AlphaCfg{first, first}
 			return []*seqProp{p, deepPhase(p, first, DqCore)}
 		}
-		// a small depth-3 phase on every change: one tiny document, reduced alphabets at all three levels
-		mini := deepPhase(p, &AlphaCfg{Values: v2, ReplValues: []*rj.Value{patchValues[2], patchValues[5]}, Kinds: kinds("add", "replace", "remove", "move")},
-			[]string{`{"a":{"x":1},"k":[0]}`})
-		mini.Opts = []r69.Options{defaultOpt}
-		mini.Alpha[1] = &AlphaCfg{Values: v2, ReplValues: []*rj.Value{patchValues[2], patchValues[5]}, Kinds: kinds("add", "replace", "remove")}
-		mini.Rule = "DEPTH 3 on one tiny document: {add, replace, remove, move} first, {add, replace, remove} second (values {1,null}; replace by null / {k:null}), {test, remove, copy, move} third - incl. the locations that existed at the start and no longer do"
+		mini := miniDeep(p, `{"a":{"x":1},"k":[0]}`)
 		return []*seqProp{p, mini}
 	}, 150*time.Second, 25*time.Minute)
 }
@@ -167,6 +162,19 @@ func deepPhase(p *seqProp, first *AlphaCfg, docs []string) *seqProp {
 	d.Alpha = []*AlphaCfg{&f, &m, &l}
 	d.Rule = "DEPTH 3 on " + fmt.Sprint(len(docs)) + " core documents: full alphabet for the first operation, {1,null} values (replace: null, {\"k\":null}) for the second, {test, remove, copy, move} for the third; same oracle"
 	return &d
+}
+
+// miniDeep: the small depth-3 phase the quick tiers carry - one tiny document, first option set only,
+// {add, replace, remove, move} ; {add, replace, remove, copy} ; {test, remove, copy, move}.
+func miniDeep(p *seqProp, doc string) *seqProp {
+	vals := []*rj.Value{patchValues[2], patchValues[5]}
+	nra := len(p.Alpha) > 0 && p.Alpha[0].NoRootAdd
+	m := deepPhase(p, &AlphaCfg{Values: v2, ReplValues: vals, Kinds: kinds("add", "replace", "remove"), NoRootAdd: nra}, []string{doc})
+	m.Opts = p.Opts[:1]
+	m.Alpha[1] = &AlphaCfg{Values: v2, ReplValues: vals, Kinds: kinds("add", "replace", "remove", "copy"), MaxFroms: 2, NoRootAdd: nra}
+	m.Alpha[2] = &AlphaCfg{Values: v1n, ReplValues: v1n, Kinds: kinds("test", "remove", "copy", "move"), MaxFroms: 2, NoRootAdd: nra}
+	m.Rule = "DEPTH 3 on one tiny document: {add, replace, remove} first, {add, replace, remove, copy} second, {test, remove, copy, move} third - incl. probes for stale state (the starting document's values and locations)"
+	return m
 }
 
 // thirdLevel is the reduced alphabet used at depth >= 3.
@@ -204,7 +212,7 @@ func init() {
 		if tier == "thorough" {
 			return []*seqProp{p, deepPhase(p, &AlphaCfg{}, append(append([]string(nil), DqCore...), Dq[4]))}
 		}
-		return []*seqProp{p}
+		return []*seqProp{p, miniDeep(p, `{"b":{"y":1.0,"x":null},"a":[1e400]}`)}
 	}, 150*time.Second, 25*time.Minute)
 
 	// C08 — failures return nothing and say why
@@ -237,8 +245,8 @@ func init() {
 	// C13 — AllowMissingPathOnRemove
 	registerSeqMulti("C13", func(tier string) []*seqProp {
 		opts := optsNeg(r69.Options{AllowMissing: true, EscapeHTML: true})
-		a := &AlphaCfg{Values: v3, ReplValues: v1n, InteriorNeg: true}
-		a2 := &AlphaCfg{Values: v2, ReplValues: v1n, MaxFroms: 8}
+		a := &AlphaCfg{Values: v2, ReplValues: v1n, InteriorNeg: true}
+		a2 := &AlphaCfg{Values: v2, ReplValues: v1n, MaxFroms: 6}
 		p := &seqProp{ID: "C13", Docs: Dq, Opts: opts, Depth: 2, Alpha: []*AlphaCfg{a, a2}, Judge: judgeC13,
 			Rule: "option on x negatives on/off x all sequences <= depth (removes of existing / absent-member / out-of-range / absent-ancestor targets mixed with all other operations); " +
 				"each judged against the reference AND differentially on the real code: Apply(on, P) must equal Apply(off, P minus the removes the reference marks skipped) in bytes or in error"}
@@ -248,7 +256,7 @@ func init() {
 			d.Alpha[2] = &AlphaCfg{Values: v1n, ReplValues: v1n, Kinds: kinds("remove", "move", "add", "test")}
 			return []*seqProp{p, d}
 		}
-		return []*seqProp{p}
+		return []*seqProp{p, miniDeep(p, `{"a":{"x":1},"k":[0]}`)}
 	}, 150*time.Second, 25*time.Minute)
 
 	// C14 — EnsurePathExistsOnAdd
@@ -315,12 +323,8 @@ func init() {
 			p.Docs = append(p.Docs, Dq[12], Dq[13])
 			return []*seqProp{p, deepPhase(p, a, []string{Dq[0], Dq[2], Dq[3], Dq[10]})}
 		}
-		// a small depth-3 phase on every change (it found the copied-null defect of the legacy package)
-		mini := deepPhase(p, &AlphaCfg{NoRootAdd: true, Values: v2, ReplValues: []*rj.Value{patchValues[2], patchValues[5]}, Kinds: kinds("add", "replace", "remove", "move")},
-			[]string{`{"a":{"x":1},"k":[0]}`})
-		mini.Opts = []r69.Options{{Neg: true, EscapeHTML: true}}
-		mini.Alpha[1] = &AlphaCfg{NoRootAdd: true, Values: v2, ReplValues: []*rj.Value{patchValues[2], patchValues[5]}, Kinds: kinds("add", "replace", "remove", "copy")}
-		mini.Rule = "DEPTH 3 on one tiny document: {add, replace, remove, move} first, {add, replace, remove, copy} second, {test, remove, copy, move} third"
+		// a small depth-3 phase on every change (it finds the copied-null defect of the legacy package)
+		mini := miniDeep(p, `{"a":{"x":1},"k":[0]}`)
 		return []*seqProp{p, mini}
 	}, 150*time.Second, 25*time.Minute)
 }
